@@ -345,3 +345,32 @@ PLANS["C11"] = dict(
         validate=dict(module="Trace_NotationSign", cfg=trace_cfg()),
     )],
 )
+
+# ------------------------------------------------------------------ C19
+C19_TRACE = cfg_lines("CONSTANTS", " Subjects <- TSubjects", ' TraceFile = "trace.ndjson"', "SPECIFICATION Spec", "POSTCONDITION AllConsumed", "CHECK_DEADLOCK FALSE")
+
+
+def c19_cfg(depth, subjects):
+    return mc_cfg(["Inv_C19", "Inv_Emit"], consts=[f"Depth = {depth}", "Subjects = {" + ", ".join(f'"{s}"' for s in subjects) + "}"],
+                  extra=["PROPERTY Prop_Frame", "PROPERTY Prop_Stable"])
+
+
+PLANS["C19"] = dict(
+    level_text="The store is modelled as the history of items pushed (signatures through PushSignature, legacy signature artifacts, foreign "
+               "referrers, signature-typed manifests whose subject differs in one field or is missing, hand-built hostile manifests); TLC checks "
+               "over all histories (depth 3 exhaustive, simulated histories of 12 pushes over 3 artifacts) that a listing holds exactly the "
+               "signature manifests of that artifact, with frame and stability action properties; every history is executed against "
+               "registry.NewRepository over a memory store and over on-disk OCI layouts (re-opened mid-history), auditing after every push all "
+               "listings (with annotations), every fetch (bytes, media type) and the store's fetch log for content used before a refusal.",
+    level_note="Trusted: TLC, oras-go content stores (Predecessors). A remote registry (Referrers API branch) is not exercised.",
+    rule="cases = push histories; every envelope distinct; all non-trivial (each history mixes artifacts/kinds); distinct = distinct history",
+    exhaustive=False,
+    phases=[
+        dict(name="histories", gen=dict(module="MC_SigRepo_C19", cfg=lambda tier, seed: c19_cfg(3, ["s1", "s2"]), select=slicer(6000)),
+             drive=dict(driver="sigrepo"), validate=dict(module="Trace_SigRepo", cfg=C19_TRACE)),
+        dict(name="long", gen=dict(module="MC_SigRepo_C19", cfg=lambda tier, seed: c19_cfg(12, ["s1", "s2", "s3"]), workers=1,
+                                   extra=lambda tier, seed: ["-simulate", "num=" + ("3000" if tier == "thorough" else "200"), "-depth", "14", "-seed", str(seed)],
+                                   select=lambda cases, tier, seed: cases[:(3000 if tier == "thorough" else 150)]),
+             drive=dict(driver="sigrepo"), validate=dict(module="Trace_SigRepo", cfg=C19_TRACE)),
+    ],
+)
